@@ -8,6 +8,7 @@ ln -s /verif/cache $D/verif/cache
 ln -s /verif/tools/mechfacts/target $D/verif/tools/mechfacts/target
 ln -s /verif/tools/mechsyn/target $D/verif/tools/mechsyn/target
 find $D/verif/tools/mechfacts $D/verif/tools/mechsyn -type f \( -name "*.rs" -o -name "Cargo.toml" \) -exec touch -d "2020-01-01" {} +   # never rebuild the shared tools from a clone
+printf "cache\ntools/*/target\n" >> $D/verif/.git/info/exclude
 SCR=/tmp/mechverif-scratch-$(python3 -c "import hashlib;print(hashlib.sha256(b'/verif').hexdigest()[:8])")
 cat > $D/env.sh <<EOF
 export MECH_SCRATCH=$SCR
